@@ -15,6 +15,7 @@ ENGINES = [
     {"name": "Perm.tla", "path": "/verif/spec/Perm.tla", "serves_properties": ["C09", "C01"], "kind_free_text": "compatible orders, count formula, bridge-shuffle sampler"},
     {"name": "Proposal.tla", "path": "/verif/spec/Proposal.tla", "serves_properties": ["C08", "C01"], "kind_free_text": "three proposals as draw procedures + reported densities, incremental weights, telescoping state machine"},
     {"name": "PGibbs.tla", "path": "/verif/spec/PGibbs.tla", "serves_properties": ["C01", "C19"], "kind_free_text": "distribution-lifted particle-Gibbs update in F_p with deviation constants"},
+    {"name": "Moves.tla", "path": "/verif/spec/Moves.tla", "serves_properties": ["C04", "C07"], "kind_free_text": "exact F_p kernels of data-point, prune-regraft and (ideal-inner) subtree moves"},
     {"name": "Forests.tla", "path": "/verif/spec/Forests.tla", "serves_properties": ["C01", "C03", "C04", "C06", "C07", "C08", "C09", "C11", "C12", "C16"], "kind_free_text": "canonical forest universe"},
 ]
 
@@ -33,6 +34,19 @@ CHECKS = {
                 "(every RNG outcome enumerated, both the run-command wiring and the library wiring) is computed on the same tables and on "
                 "the real density with alpha != 1, and max|pi K - pi| <= 1e-10 is required with pi = exp(log_p_one) from the code.",
         "note": "Trusted: TLC, EnumRNG fidelity, projection. End-to-end enumeration bounded to n<=3 data points, NP<=3; n-dependent ingredients covered by C08/C09.",
+    },
+    "C04": {
+        "engine": "Moves.tla",
+        "category": "model_checking",
+        "technique": "TLC exact F_p kernels of the three auxiliary moves (Stationary) + exact transition matrices of the real samplers by RNG enumeration",
+        "design_ref": "DESIGN.md 5 C04",
+        "text": "TLC builds the exact Markov kernel of the data-point Gibbs move (per point), prune-regraft, and the subtree move with an ideal "
+                "inner sampler over all forests on <=3 (quick) / <=4 (thorough) points and proves global balance in F_p for the rules as "
+                "specified; the deviations (lone outlier never moved, degree-weighted regraft, stuck on all-outlier tree) are refuted. The real "
+                "DataPointSampler, PruneRegraphSampler and ParticleGibbsSubtreeSampler are run from every start forest with every RNG outcome "
+                "enumerated (run wiring and library wiring, TLC's tables and the real density) and max|pi K - pi| <= 1e-10 is required. The "
+                "subtree move on >=3 points is a listed open finding (TLC refutes even the ideal version); its behaviour is pinned by a fingerprint.",
+        "note": "Trusted: TLC, EnumRNG, projection. Bounded to n<=3 (quick) / n<=4 DP,PRG and n<=3 subtree (thorough).",
     },
     "C08": {
         "engine": "Proposal.tla",
